@@ -11,6 +11,9 @@ From DF Require Import Prelude Constants_gen Region Mesh.
 From DF Require Export Ovf.
 Open Scope Q_scope.
 
+(* literal of a binary float: mantissa * 2^exponent *)
+Definition fq (m e : Z) : Q := inject_Z m * Qpower 2 e.
+
 Definition rel_tol : Q := 1 # 1000000000.            (* 1e-9 *)
 
 Record fin := mkFin {
